@@ -1,4 +1,323 @@
-(* C08 — placeholder while the development is being built *)
-From TF Require Import Base GPOps.
-Example C08_placeholder : True. Proof. exact I. Qed.
-Print Assumptions C08_placeholder.
+(* C08 — GP variation is closed: offspring are well-formed trees within max_level.
+   Statements only; models in theories/GPOps.v (operators) and Tree.v / TreeIdx.v (prefix trees and
+   the compiled index helpers, shared with C09); proofs in theories/GPOpsProofs{,2,3,4,5}.v.
+
+   Conventions.  A tree as the implementation holds it is a pair  t = (node list, arity array)
+   ([ptree]).   wfp arity t  :  the recorded arity of every node is the arity of its symbol and the
+   node list is the prefix encoding of exactly one complete tree (C08_wfp_meaning).
+   depthp t = Tree.get_max_level() computed by the two-stack walk on the arity array.
+   Every operator theorem has the form
+        op inputs ds = Some (child, ds')  ->  ...
+   for ALL draw lists ds: an out-of-range index makes the model fail (None), so no assumption on the
+   draws is needed — except where a permutation is produced from draws (swap: valid_draws). *)
+From Coq Require Import List Arith Bool Lia ZArith QArith Permutation.
+Import ListNotations.
+From TF Require Import Base RandomPrims Tree TreeIdx TreeProofs TreeProofs2 TreeCR GPOps
+  GPOpsProofs GPOpsProofs2 GPOpsProofs3 GPOpsProofs4 GPOpsProofs5.
+Open Scope nat_scope.
+
+(* ------------------------------------------------------------------ what "well formed" means *)
+Theorem C08_wfp_meaning : forall (sym : Type) (arity : sym -> nat) (t : ptree sym),
+  wfp arity t <-> exists T : tree sym, wft arity T = true /\ t = mk arity (flatten T).
+Proof. intros sym arity t. exact (wfp_good arity t). Qed.
+Print Assumptions C08_wfp_meaning.
+
+Theorem C08_depthp_is_depth : forall (sym : Type) (arity : sym -> nat) (T : tree sym),
+  wft arity T = true -> depthp (mk arity (flatten T)) = depth T.
+Proof. intros sym arity T W. exact (good_depth arity _ T (conj W eq_refl)). Qed.
+Print Assumptions C08_depthp_is_depth.
+
+(* ------------------------------------------------------------------ 1. the splice *)
+(* Tree.concat on well-formed trees yields a well-formed tree; its depth is bounded by the depth of
+   the host and  level of the cut + depth of the graft  (level read off get_levels(0)) *)
+Theorem C08_concat_wf : forall (sym : Type) (arity : sym -> nat) (p q : list sym) (i : nat),
+  wf arity p -> wf arity q -> i < length p ->
+  exists r, concat arity p i q = Some r /\ wf arity r /\
+    max_level (nargs arity r)
+    <= Nat.max (max_level (nargs arity p)) (nth i (levels (nargs arity p) 0) 0 + max_level (nargs arity q)).
+Proof. intros sym arity. exact (concat_wf_depth arity). Qed.
+Print Assumptions C08_concat_wf.
+
+(* ------------------------------------------------------------------ 2. crossovers *)
+Theorem C08_empty_clone : forall (sym : Type) (ps : list (ptree sym)) ds c ds',
+  empty_crossoverGP ps ds = Some (c, ds') -> nth_error ps 0 = Some c /\ ds' = ds.
+Proof. intros sym. exact (@empty_crossover_spec sym). Qed.
+Print Assumptions C08_empty_clone.
+
+Theorem C08_standard_crossover_wf : forall (sym : Type) (arity : sym -> nat) (p1 p2 : ptree sym) rest ml ds c ds',
+  wfp arity p1 -> wfp arity p2 ->
+  standard_crossover (p1 :: p2 :: rest) ml ds = Some (c, ds') ->
+  wfp arity c /\ syms_from [p1; p2] c.
+Proof. intros sym arity. exact (standard_wf arity). Qed.
+Print Assumptions C08_standard_crossover_wf.
+
+Theorem C08_standard_crossover_depth : forall (sym : Type) (arity : sym -> nat) (p1 p2 : ptree sym) rest ml ds c ds',
+  wfp arity p1 -> wfp arity p2 ->
+  standard_crossover (p1 :: p2 :: rest) ml ds = Some (c, ds') ->
+  depthp p1 <= ml -> depthp p2 <= ml -> depthp c <= ml.
+Proof. intros sym arity. exact (standard_depth arity). Qed.
+Print Assumptions C08_standard_crossover_depth.
+
+(* standard = ONE sub-term of one parent replaces ONE sub-term of the other (result within
+   max_level), or the child is a copy of a parent (the depth guard) *)
+Theorem C08_standard_crossover_named : forall (sym : Type) (arity : sym -> nat) p1 (T1 : tree sym) p2 T2 rest ml ds c ds',
+  good arity p1 T1 -> good arity p2 T2 ->
+  standard_crossover (p1 :: p2 :: rest) ml ds = Some (c, ds') ->
+  exists C, good arity c C /\
+    ((is_transplant T1 T2 C /\ depth C <= ml) \/ (is_transplant T2 T1 C /\ depth C <= ml) \/ C = T1 \/ C = T2).
+Proof. intros sym arity. exact (standard_crossover_spec arity). Qed.
+Print Assumptions C08_standard_crossover_named.
+
+Theorem C08_one_point_crossoverGP_wf : forall (sym : Type) (arity : sym -> nat) (p1 p2 : ptree sym) rest ds c ds',
+  wfp arity p1 -> wfp arity p2 ->
+  one_point_crossoverGP (p1 :: p2 :: rest) ds = Some (c, ds') ->
+  wfp arity c /\ syms_from [p1; p2] c.
+Proof. intros sym arity. exact (one_point_wf arity). Qed.
+Print Assumptions C08_one_point_crossoverGP_wf.
+
+(* no depth guard in the code: the bound holds because common positions are at the same level *)
+Theorem C08_one_point_crossoverGP_depth : forall (sym : Type) (arity : sym -> nat) (p1 p2 : ptree sym) rest ds c ds' ml,
+  wfp arity p1 -> wfp arity p2 ->
+  one_point_crossoverGP (p1 :: p2 :: rest) ds = Some (c, ds') ->
+  depthp p1 <= ml -> depthp p2 <= ml -> depthp c <= ml.
+Proof. intros sym arity. exact (one_point_depth arity). Qed.
+Print Assumptions C08_one_point_crossoverGP_depth.
+
+(* one-point = the sub-terms at ONE position of the (recursive) common region are exchanged *)
+Theorem C08_one_point_crossoverGP_named : forall (sym : Type) (arity : sym -> nat) p1 (T1 : tree sym) p2 T2 rest ds c ds',
+  good arity p1 T1 -> good arity p2 T2 ->
+  one_point_crossoverGP (p1 :: p2 :: rest) ds = Some (c, ds') ->
+  exists C, good arity c C /\ is_common_exchange arity T1 T2 C.
+Proof. intros sym arity. exact (one_point_spec arity). Qed.
+Print Assumptions C08_one_point_crossoverGP_named.
+
+(* the relation "C is a uniform mix of the trees ts" (GPOps.mix: at a border of the common region
+   a whole sub-term of one parent; inside it the root symbol of one parent over argument-wise
+   mixes) is closed: well formed, no deeper than the deepest parent, symbols from the parents *)
+Theorem C08_mix_closed : forall (sym : Type) (arity : sym -> nat) (ts : list (tree sym)) c,
+  mix arity ts c -> Forall (fun t => wft arity t = true) ts ->
+  wft arity c = true /\
+  (forall d, (forall t, In t ts -> depth t <= d) -> depth c <= d) /\
+  (forall x, In x (flatten c) -> exists t, In t ts /\ In x (flatten t)).
+Proof.
+  intros sym arity ts c M W. split; [exact (mix_wf arity ts c M W)|].
+  split; [exact (mix_depth arity ts c M W)|exact (mix_syms arity ts c M W)].
+Qed.
+Print Assumptions C08_mix_closed.
+
+(* for two trees the index-pair walk of common_region_two_trees returns the recursive common
+   region GPOps.crk_tag (columns and borders) *)
+Theorem C08_common_region_two_is_rec : forall (sym : Type) (arity : sym -> nat) (T1 T2 : tree sym),
+  wft arity T1 = true -> wft arity T2 = true ->
+  region arity (parents_of arity [T1; T2]) = Some (region_rec arity [T1; T2] (S (depth T1))).
+Proof. intros sym arity. exact (region_two arity). Qed.
+Print Assumptions C08_common_region_two_is_rec.
+
+(* uniform family with two parents, however the donor vector is drawn *)
+Theorem C08_uniform_two_wf : forall (sym : Type) (arity : sym -> nat) (p1 p2 : ptree sym) draw_pool ds c ds',
+  wfp arity p1 -> wfp arity p2 ->
+  uniform_with arity [p1; p2] draw_pool ds = Some (c, ds') ->
+  wfp arity c /\ syms_from [p1; p2] c.
+Proof. intros sym arity. exact (uniform_two_wf arity). Qed.
+Print Assumptions C08_uniform_two_wf.
+
+Theorem C08_uniform_two_depth : forall (sym : Type) (arity : sym -> nat) (p1 p2 : ptree sym) draw_pool ds c ds' ml,
+  wfp arity p1 -> wfp arity p2 ->
+  uniform_with arity [p1; p2] draw_pool ds = Some (c, ds') ->
+  depthp p1 <= ml -> depthp p2 <= ml -> depthp c <= ml.
+Proof. intros sym arity. exact (uniform_two_depth arity). Qed.
+Print Assumptions C08_uniform_two_depth.
+
+Theorem C08_uniform_two_named : forall (sym : Type) (arity : sym -> nat) p1 (T1 : tree sym) p2 T2 draw_pool ds c ds',
+  good arity p1 T1 -> good arity p2 T2 ->
+  uniform_with arity [p1; p2] draw_pool ds = Some (c, ds') ->
+  exists C, good arity c C /\ mix arity [T1; T2] C.
+Proof. intros sym arity. exact (uniform_two_spec arity). Qed.
+Print Assumptions C08_uniform_two_named.
+
+(* ... which covers the four named operators *)
+Theorem C08_uniform_family_two : forall (sym : Type) (arity : sym -> nat) (p1 p2 : ptree sym) fitness rank ds c ds' ml,
+  wfp arity p1 -> wfp arity p2 ->
+  (uniform_crossoverGP arity [p1; p2] fitness rank ds = Some (c, ds') \/
+   uniform_proportional_crossover_GP arity [p1; p2] fitness rank ds = Some (c, ds') \/
+   uniform_rank_crossover_GP arity [p1; p2] fitness rank ds = Some (c, ds') \/
+   uniform_tournament_crossover_GP arity [p1; p2] fitness rank ds = Some (c, ds')) ->
+  wfp arity c /\ syms_from [p1; p2] c /\ (depthp p1 <= ml -> depthp p2 <= ml -> depthp c <= ml) /\
+  exists T1 T2 C, good arity p1 T1 /\ good arity p2 T2 /\ good arity c C /\ mix arity [T1; T2] C.
+Proof. intros sym arity. exact (uniform_family_two arity). Qed.
+Print Assumptions C08_uniform_family_two.
+
+(* Any number k of parents.  FULL STATEMENT (not proved for k <> 2):
+     forall T0 Ts' draw_pool ds c ds' ml, Forall wft (T0 :: Ts') ->
+       uniform_with arity (parents_of arity (T0 :: Ts')) draw_pool ds = Some (c, ds') ->
+       wfp c /\ syms_from parents c /\ (all parents <= ml -> depthp c <= ml)
+   PROVED PART: the same under the hypothesis that get_common_region returned the recursive common
+   region.  For k = 2 the hypothesis is C08_common_region_two_is_rec; for k <> 2 (the k-tree walk
+   TreeIdx.common_region_k) it is evaluated on every k-parent case of the correspondence
+   (C08Check.chk_region) and is the missing induction named in notes/C09.md. *)
+Theorem C08_uniform_k_closed_partial : forall (sym : Type) (arity : sym -> nat) (T0 : tree sym) Ts' fuel draw_pool ds c ds' ml,
+  Forall (fun t => wft arity t = true) (T0 :: Ts') -> depth T0 < fuel ->
+  region arity (parents_of arity (T0 :: Ts')) = Some (region_rec arity (T0 :: Ts') fuel) ->
+  uniform_with arity (parents_of arity (T0 :: Ts')) draw_pool ds = Some (c, ds') ->
+  (wfp arity c /\ syms_from (parents_of arity (T0 :: Ts')) c /\
+   (all_le ml (parents_of arity (T0 :: Ts')) -> depthp c <= ml)) /\
+  exists C, good arity c C /\ mix arity (T0 :: Ts') C.
+Proof.
+  intros sym arity T0 Ts' fuel dp ds c ds' ml W Hf Hr H. split.
+  - exact (uniform_with_closed arity T0 Ts' fuel dp ds c ds' ml W Hf Hr H).
+  - exact (uniform_with_spec arity T0 Ts' fuel dp ds c ds' W Hf Hr H).
+Qed.
+Print Assumptions C08_uniform_k_closed_partial.
+
+(* ------------------------------------------------------------------ 2. mutations *)
+Theorem C08_point_mutation_wf : forall (sym : Type) (arity : sym -> nat) (t : ptree sym) U proba ds c ds',
+  wfp arity t -> uniset_ok arity U ->
+  point_mutation arity t U proba ds = Some (c, ds') ->
+  wfp arity c /\ forall x, In x (fst c) -> In x (fst t) \/ in_uniset U x.
+Proof. intros sym arity. exact (point_wf arity). Qed.
+Print Assumptions C08_point_mutation_wf.
+
+Theorem C08_point_mutation_depth : forall (sym : Type) (arity : sym -> nat) (t : ptree sym) U proba ds c ds' ml,
+  wfp arity t -> uniset_ok arity U ->
+  point_mutation arity t U proba ds = Some (c, ds') -> depthp t <= ml -> depthp c <= ml.
+Proof. intros sym arity. exact (point_depth arity). Qed.
+Print Assumptions C08_point_mutation_depth.
+
+(* point = at most ONE symbol replaced, by a symbol of the universal set with the same arity *)
+Theorem C08_point_mutation_named : forall (sym : Type) (arity : sym -> nat) t (T : tree sym) U proba ds c ds',
+  good arity t T -> uniset_ok arity U ->
+  point_mutation arity t U proba ds = Some (c, ds') ->
+  exists C, good arity c C /\ (C = T \/ is_relabel arity U T C).
+Proof. intros sym arity. exact (point_mutation_spec arity). Qed.
+Print Assumptions C08_point_mutation_named.
+
+Theorem C08_growing_mutation_wf : forall (sym : Type) (arity : sym -> nat) (t : ptree sym) U proba ds c ds',
+  wfp arity t -> uniset_ok arity U ->
+  growing_mutation arity t U proba ds = Some (c, ds') ->
+  wfp arity c /\ forall x, In x (fst c) -> In x (fst t) \/ in_uniset U x.
+Proof. intros sym arity. exact (grow_wf arity). Qed.
+Print Assumptions C08_growing_mutation_wf.
+
+Theorem C08_growing_mutation_depth : forall (sym : Type) (arity : sym -> nat) (t : ptree sym) U proba ds c ds' ml,
+  wfp arity t -> uniset_ok arity U ->
+  growing_mutation arity t U proba ds = Some (c, ds') -> depthp t <= ml -> depthp c <= ml.
+Proof. intros sym arity. exact (grow_depth arity). Qed.
+Print Assumptions C08_growing_mutation_depth.
+
+(* grow = the sub-term at one position replaced by a generated tree over the universal set that is
+   no deeper than the sub-term it replaces *)
+Theorem C08_growing_mutation_named : forall (sym : Type) (arity : sym -> nat) t (T : tree sym) U proba ds c ds',
+  good arity t T -> uniset_ok arity U ->
+  growing_mutation arity t U proba ds = Some (c, ds') ->
+  exists C, good arity c C /\ (C = T \/ is_regrow arity U T C).
+Proof. intros sym arity. exact (growing_mutation_spec arity). Qed.
+Print Assumptions C08_growing_mutation_named.
+
+Theorem C08_shrink_mutation_wf : forall (sym : Type) (arity : sym -> nat) (t : ptree sym) (U : uniset) proba ds c ds',
+  wfp arity t ->
+  shrink_mutation t U proba ds = Some (c, ds') -> wfp arity c /\ forall x, In x (fst c) -> In x (fst t).
+Proof. intros sym arity. exact (shrink_wf arity). Qed.
+Print Assumptions C08_shrink_mutation_wf.
+
+Theorem C08_shrink_mutation_depth : forall (sym : Type) (arity : sym -> nat) (t : ptree sym) (U : uniset) proba ds c ds' ml,
+  wfp arity t ->
+  shrink_mutation t U proba ds = Some (c, ds') -> depthp t <= ml -> depthp c <= ml.
+Proof. intros sym arity. exact (shrink_depth arity). Qed.
+Print Assumptions C08_shrink_mutation_depth.
+
+(* shrink = a function node replaced by one of its own arguments; trees of size <= 2 are returned
+   unchanged and no draw is consumed *)
+Theorem C08_shrink_mutation_named : forall (sym : Type) (arity : sym -> nat) t (T : tree sym) (U : uniset) proba ds c ds',
+  good arity t T ->
+  shrink_mutation t U proba ds = Some (c, ds') ->
+  (size T <= 2 -> c = t /\ ds' = ds) /\
+  exists C, good arity c C /\ (C = T \/ is_shrink T C).
+Proof. intros sym arity. exact (shrink_mutation_spec arity). Qed.
+Print Assumptions C08_shrink_mutation_named.
+
+Theorem C08_swap_mutation_wf : forall (sym : Type) (arity : sym -> nat) (t : ptree sym) (U : uniset) proba ds c ds',
+  wfp arity t -> valid_draws ds ->
+  swap_mutation t U proba ds = Some (c, ds') -> wfp arity c /\ forall x, In x (fst c) -> In x (fst t).
+Proof. intros sym arity. exact (swap_wf arity). Qed.
+Print Assumptions C08_swap_mutation_wf.
+
+Theorem C08_swap_mutation_depth : forall (sym : Type) (arity : sym -> nat) (t : ptree sym) (U : uniset) proba ds c ds' ml,
+  wfp arity t -> valid_draws ds ->
+  swap_mutation t U proba ds = Some (c, ds') -> depthp t <= ml -> depthp c <= ml.
+Proof. intros sym arity. exact (swap_depth arity). Qed.
+Print Assumptions C08_swap_mutation_depth.
+
+(* swap (repaired code) = the arguments of ONE node of arity > 1 are permuted, nothing else changes
+   — for EVERY arity *)
+Theorem C08_swap_mutation_named : forall (sym : Type) (arity : sym -> nat) t (T : tree sym) (U : uniset) proba ds c ds',
+  good arity t T -> valid_draws ds ->
+  swap_mutation t U proba ds = Some (c, ds') ->
+  exists C, good arity c C /\ (C = T \/ is_arg_perm arity T C).
+Proof. intros sym arity. exact (swap_mutation_spec arity). Qed.
+Print Assumptions C08_swap_mutation_named.
+
+(* the code before the repair (splices in argument order): arity-3 witness  f(g(x2), x3, x4),
+   draws coin 1/4, node 0, Sattolo 3/4, 1/2  ->  f(x3, x3, x4): not an argument permutation *)
+Theorem C08_swap_old_refuted :
+  exists (T : tree sy2) ds c ds',
+    wft snd T = true /\ valid_draws ds /\
+    swap_mutation_old (mk snd (flatten T)) U0 (1 # 2) ds = Some (c, ds') /\
+    ~ (exists C, good snd c C /\ (C = T \/ is_arg_perm snd T C)).
+Proof. exact swap_old_refuted. Qed.
+Print Assumptions C08_swap_old_refuted.
+
+(* ... and on  f(x1, g(x3), x4)  the stale position is out of range (IndexError as plain python, an
+   unchecked read in the compiled helper); the repaired code returns a tree on the same draws *)
+Theorem C08_swap_old_out_of_range :
+  exists (T : tree sy2) ds,
+    wft snd T = true /\ valid_draws ds /\ swap_mutation_old (mk snd (flatten T)) U0 (1 # 2) ds = None /\
+    exists c, swap_mutation (mk snd (flatten T)) U0 (1 # 2) ds = Some (c, []).
+Proof. exact swap_old_out_of_range. Qed.
+Print Assumptions C08_swap_old_out_of_range.
+
+(* ------------------------------------------------------------------ 3. initialisers *)
+(* for ANY universal set whose function symbols take arguments and whose terminals (ephemeral
+   constants included) do not: full / grow / random_tree / half_and_half return well-formed trees
+   over the universal set of depth <= max_level; full: every leaf exactly at max_level *)
+Theorem C08_init_wf_depth : forall (sym : Type) (arity : sym -> nat) (U : uniset (sym := sym)) (ml : nat),
+  uniset_ok arity U ->
+  (forall ds t ds', full_growing_method arity U ml ds = Some (t, ds') ->
+     exists T, good arity t T /\ depth T <= ml /\ fullt ml T = true /\ in_U U T) /\
+  (forall ds t ds', growing_method arity U ml ds = Some (t, ds') ->
+     exists T, good arity t T /\ depth T <= ml /\ in_U U T) /\
+  (forall ds t ds', random_tree arity U ml ds = Some (t, ds') ->
+     exists T, good arity t T /\ depth T <= ml /\ in_U U T) /\
+  (forall pop ds l ds', valid_draws ds -> 2 <= ml -> half_and_half arity pop U ml ds = Some (l, ds') ->
+     length l = pop /\ Forall (fun t => exists T, good arity t T /\ depth T <= ml /\ in_U U T) l).
+Proof. intros sym arity. exact (init_wf_depth arity). Qed.
+Print Assumptions C08_init_wf_depth.
+
+Theorem C08_full_leaves_at_max_level : forall (sym : Type) (T : tree sym) d,
+  fullt d T = true -> forall i s, sub_at T i = Some (Node s []) -> level_at T i = d.
+Proof. intros sym. exact (@fullt_leaves sym). Qed.
+Print Assumptions C08_full_leaves_at_max_level.
+
+(* ------------------------------------------------------------------ non-vacuity *)
+(* f(g(x), y) and h(z, w) over arities {0,1,2}: the hypotheses are satisfiable and the operators
+   return (standard crossover: subtree g(x) of the first parent spliced at z of the second) *)
+Example C08_nonvacuous :
+  let p1 : ptree sy2 := mk snd [(64, 2); (32, 1); (0, 0); (1, 0)] in
+  let p2 : ptree sy2 := mk snd [(65, 2); (2, 0); (3, 0)] in
+  wfp snd p1 /\ wfp snd p2 /\
+  standard_crossover [p1; p2] 16 [DU (3 # 8); DU (1 # 2); DU (1 # 4)]
+  = Some (mk snd [(65, 2); (32, 1); (0, 0); (3, 0)], []) /\
+  (exists c, uniform_crossoverGP snd [p1; p2] [] [] [DI 2 1; DI 2 0; DI 2 1] = Some (c, [])) /\
+  uniset_ok snd {| u_funcs := [(64, 2)]; u_terms := [inl (0, 0)] |} /\
+  (exists t, full_growing_method snd {| u_funcs := [(64, 2)]; u_terms := [inl (0, 0)] |} 1 [DI 1 0; DI 1 0; DI 1 0] = Some (t, [])).
+Proof.
+  cbv zeta. split.
+  { apply wfp_good. exists (Node (64, 2) [Node (32, 1) [Node (0, 0) []]; Node (1, 0) []]). split; reflexivity. }
+  split.
+  { apply wfp_good. exists (Node (65, 2) [Node (2, 0) []; Node (3, 0) []]). split; reflexivity. }
+  split; [vm_compute; reflexivity|]. split; [eexists; vm_compute; reflexivity|]. split.
+  - split.
+    + intros s [<-|[]]. simpl. lia.
+    + intros s [[E|[]]|(g & ds & ds' & [E|[]] & _)]; [inversion E; reflexivity|discriminate].
+  - eexists. vm_compute. reflexivity.
+Qed.
+Print Assumptions C08_nonvacuous.
